@@ -121,6 +121,16 @@ pub fn check_bytes(ctx: &Ctx, data: &[u8]) -> Result<(), (Value, String)> {
         "C07" => go!(c07::decode, c07::check),
         "C08" => go!(c08::decode, c08::check),
         "C09" => go!(c09::decode_random, c09::check),
+        "C10" => {
+            if data.first().map(|b| b & 1 == 0).unwrap_or(true) {
+                go!(c10::decode_utf8_case, c10::oracle)
+            } else {
+                go!(c10::decode_enc_case, c10::oracle)
+            }
+        },
+        // under libFuzzer the build carries AddressSanitizer, which is the memory-safety monitor
+        // there (C12: out-of-bounds reads and writes, use after free, double free, leaks)
+        "C11" | "C12" => go!(c11::decode, |c: &c11::Case, st: &mut Stats| c11::oracle(c, st, false)),
         "C13" => go!(c13::decode, c13::oracle),
         "C15" => go!(c15::decode, c15::check),
         "C16" => go!(c16::decode, c16::check),
@@ -136,7 +146,7 @@ pub fn check_bytes(ctx: &Ctx, data: &[u8]) -> Result<(), (Value, String)> {
 }
 
 pub const FUZZ_PROPS: &[&str] = &[
-    "C01", "C02", "C03", "C04", "C05", "C06", "C07", "C08", "C09", "C13", "C15", "C16", "C17", "C18", "C19", "C20",
+    "C01", "C02", "C03", "C04", "C05", "C06", "C07", "C08", "C09", "C10", "C11", "C12", "C13", "C15", "C16", "C17", "C18", "C19", "C20",
 ];
 
 /// libFuzzer entry point.
@@ -176,7 +186,7 @@ pub fn run_fuzz(ctx: &Ctx, rep: &mut Report) {
             let _ = std::fs::write(corpus.join(format!("seed-{i}")), b);
         }
     }
-    let runs: u64 = std::env::var("HV_FUZZ_RUNS").ok().and_then(|s| s.parse().ok()).unwrap_or(150_000);
+    let runs: u64 = std::env::var("HV_FUZZ_RUNS").ok().and_then(|s| s.parse().ok()).unwrap_or(100_000);
     let jobs = 16;
     let status = Command::new("cargo")
         .current_dir(&harness)
@@ -187,7 +197,7 @@ pub fn run_fuzz(ctx: &Ctx, rep: &mut Report) {
         .arg(format!("-seed={}", ctx.seed.max(1)))
         // the campaign is sized by -runs; the wall-clock cap only bounds a badly loaded machine
         // (reaching it shortens the campaign, it is never a verdict)
-        .args(["-len_control=0", "-max_len=1500", "-print_final_stats=1", "-timeout=60", "-max_total_time=2400"])
+        .args(["-len_control=0", "-max_len=1500", "-print_final_stats=1", "-timeout=60", "-max_total_time=900"])
         .arg(format!("-jobs={jobs}"))
         .arg(format!("-workers={jobs}"))
         .env("HV_FUZZ_PROP", &ctx.id)
@@ -235,6 +245,22 @@ pub fn run_fuzz(ctx: &Ctx, rep: &mut Report) {
                 if let Ok(bytes) = std::fs::read(e.path()) {
                     if let Err((case, what)) = check_bytes(ctx, &bytes) {
                         rep.failures.push(crate::engine::Failure { case, what: format!("found by libFuzzer (artifact): {what}") });
+                        found = true;
+                    } else if (ctx.id == "C12" || ctx.id == "C11")
+                        && (e.file_name().to_string_lossy().starts_with("crash-") || e.file_name().to_string_lossy().starts_with("leak-"))
+                    {
+                        // the sanitizer is the oracle: the case is a tendril operation history
+                        let mut src = Src::new(&bytes);
+                        let case = serde_json::to_value(c11::decode(&mut src)).unwrap_or(Value::Null);
+                        let keep = root.join("replays").join(format!("{}-fuzz-artifact-{}", ctx.id, e.file_name().to_string_lossy()));
+                        let _ = std::fs::copy(e.path(), &keep);
+                        rep.failures.push(crate::engine::Failure {
+                            case,
+                            what: format!(
+                                "AddressSanitizer / LeakSanitizer stopped the libFuzzer run on this operation history (memory error reached through the safe API; the contents still match the model); raw input kept at {}",
+                                keep.display()
+                            ),
+                        });
                         found = true;
                     } else {
                         let keep = root.join("replays").join(format!("{}-fuzz-artifact-{}", ctx.id, e.file_name().to_string_lossy()));
